@@ -1,39 +1,11 @@
 //! Shared alphabets and helpers for the BBS property checks.
 #![allow(non_snake_case)]
 use crate::zk::{zk, Zk};
-use mccore::{fill, Ctx, Tier, O};
+use mccore::{fill, O};
 use refbbs::{Suite, SUITES};
-use serde_json::{json, Value};
-use std::sync::atomic::{AtomicBool, Ordering};
+use serde_json::Value;
 
-pub struct Env {
-    pub ctx: Ctx,
-    pub only_root: Option<String>,
-    pub machinery_error: AtomicBool,
-}
-
-impl Env {
-    pub fn want(&self, root: &str) -> bool {
-        match &self.only_root {
-            None => true,
-            Some(r) => r == root,
-        }
-    }
-    /// The reference and the semantic oracle disagree: that is a bug in the machinery, never a verdict.
-    pub fn machinery(&self, what: &str) {
-        self.machinery_error.store(true, Ordering::Relaxed);
-        self.ctx.note(&format!("MACHINERY: {}", what));
-    }
-    pub fn tier(&self) -> Tier {
-        self.ctx.tier
-    }
-    pub fn thorough(&self) -> bool {
-        self.ctx.tier.thorough()
-    }
-    pub fn case(&self, root: &str, detail: Value) -> Value {
-        json!({"root": root, "tier": self.ctx.tier.name(), "seed": self.ctx.seed, "detail": detail})
-    }
-}
+pub use mccore::Env;
 
 #[derive(Clone)]
 pub struct Key {
